@@ -95,7 +95,7 @@ def work(item, opts):
     modes = tuple(item["modes"]) if item["modes"] is not None else None
     wd = tempfile.mkdtemp(prefix="c20.", dir=os.environ.get("PVMON_WORKDIR"))
     out = {"viol": [], "calls": 0, "files": 0}
-    what = f"n={n} m={m} modes[{shape}]={modes} trials={n_trials}"
+    what = f"n={n} m={m} modes[{shape}]={modes} trials={n_trials} debug={bool(item.get('debug'))}"
 
     def viol(kind, detail):
         out["viol"].append({"key": {"component": "Multitask", "kind": kind, "shape": shape}, "detail": f"{what}: {detail}"[:500]})
@@ -111,7 +111,7 @@ def work(item, opts):
             return out
         try:
             with contextlib.redirect_stdout(io.StringIO()):
-                mt.execute(n_trials=n_trials, n_jobs=2)
+                mt.execute(n_trials=n_trials, n_jobs=item.get("n_jobs", 2), debug=bool(item.get("debug")))
         except Exception as e:
             viol("execute-exception", f"{type(e).__name__}: {e}")
             return out
@@ -238,7 +238,7 @@ def make_items(tier, seed):
             if modes is not None and len(set(modes)) == 1 and L > 1:
                 modes[rng.randrange(L)] = rng.choice([x for x in MODES if x != modes[0]])
             items.append({"n": n, "m": m, "shape": shape, "modes": modes, "n_trials": rng.choice([1, 2, 3]),
-                          "n_workers": rng.choice([None, 2, 5]), "formats": rng.sample(["csv", "json", "dataframe"], 1 if tier == "quick" else 2)})
+                          "n_workers": rng.choice([None, 2, 5]), "debug": rng.random() < 0.4, "n_jobs": rng.choice([2, 2, 3, 1]), "formats": rng.sample(["csv", "json", "dataframe"], 1 if tier == "quick" else 2)})
     return items
 
 
